@@ -366,6 +366,13 @@ def rule_gcg(S):
                if 'init' in v and any(is_call(x, cq=GC + '::get_gc_epoch') for x in f.walk(v['init']))]
         if not gce:
             raise AnalysisBroken('R-GCG: %s does not load the GC epoch into a local' % q)
+        # the local may be const: resolved terms then show its initialiser instead of the variable
+        gterms = {('var', vname(gce[0]))}
+        for n_ in f.all_nodes():
+            if n_['k'] == 'DeclStmt':
+                for v_ in n_.get('vars', []):
+                    if v_['id'] == gce[0] and 'init' in v_:
+                        gterms.add(term(f, v_['init'], res=True))
 
         def subject(t):
             # std::get<k>(X) -> X
@@ -397,7 +404,7 @@ def rule_gcg(S):
                 if t[0] == 'bin' and t[1] in ('>=', '>', '<', '<='):
                     a, b = t[2], t[3]
                     sa = subject(a)
-                    if sa is not None and b == ('var', vname(gce[0])):
+                    if sa is not None and b in gterms:
                         op = t[1]
                         truth = idx == 0
                         # established relation tag ? gc
